@@ -1,6 +1,6 @@
 /-
 The directory invariant of the ChunkStore model and its preservation along histories with
-restarts and crashes (C04).
+restarts, crashes and I/O errors (C04).
 -/
 import EphVerif.Lemmas.C04Sweep
 import EphVerif.Lemmas.C01Run
@@ -11,12 +11,16 @@ open EphVerif.StoreSpec (Op)
 /-- persistence and wipe-on-expiry are enabled (the premise of property C04) -/
 def PersistCfg (cfg : Cfg) : Prop := cfg.persistent = true ∧ cfg.wipeOnExpiry = true
 
-/-- Directory invariant of a running instance: the chunk files are exactly the records' data,
-    and every record was still live at the most recent cleanup (`cleaned`). -/
+/-- Directory invariant of a running instance.  A record stored as persisted has its file with
+    exactly its bytes; a chunk file that is present either is such a file or is owed a wipe
+    (`pending`: a wipe of it failed with an I/O error and every sweep retries it); every record was
+    still live at the most recent sweep/start-up (`cleaned`). -/
 structure SInv (y : Sys) (cleaned now : Int) : Prop where
   uniq : Uniq y.recs
-  persisted : ∀ id r, aget y.recs id = some r → r.persisted = true
-  files : ∀ id, aget y.fs (.chunk id) = (aget y.recs id).map (·.data)
+  files_ok : ∀ id r, aget y.recs id = some r → r.persisted = true →
+    aget y.fs (.chunk id) = some r.data ∧ Name.chunk id ∉ y.pending
+  files_only : ∀ id c, aget y.fs (.chunk id) = some c → Name.chunk id ∉ y.pending →
+    ∃ r, aget y.recs id = some r ∧ r.persisted = true ∧ r.data = c
   live : ∀ id r, aget y.recs id = some r → cleaned < r.expires
   cleaned_le : cleaned ≤ now
 
@@ -24,78 +28,71 @@ theorem effTtl_pos (cfg : Cfg) (ttl : Int) : 1 ≤ effTtl cfg ttl := by
   simp only [effTtl, EphVerif.Gen.C01.kMinimumTtlSec]
   split <;> split <;> omega
 
-theorem sinv_put {cfg : Cfg} (hc : PersistCfg cfg) {y : Sys} {c now : Int} (h : SInv y c now)
+theorem chunk_ne {id id' : String} (h : id ≠ id') : Name.chunk id ≠ Name.chunk id' := by
+  intro hh; cases hh; exact h rfl
+
+theorem sinv_put {cfg : Cfg} (hc : PersistCfg cfg) (φ : Faults) {y : Sys} {c now : Int} (h : SInv y c now)
     (id : String) (data plain : Bytes) (ttl : Int) (nonce : Bytes) (enc : Bool) :
-    SInv (sysPut cfg y now id data plain ttl nonce enc) c now := by
+    SInv (sysPutF cfg φ y now id data plain ttl nonce enc) c now := by
+  have hself := putF_self cfg hc.1 φ y.recs y.fs y.pending id data
   refine ⟨uniq_aset h.uniq _ _, ?_, ?_, ?_, h.cleaned_le⟩
+  · intro id' r hr hper
+    by_cases hid : id = id'
+    · subst hid
+      simp only [sysPutF, aget_aset_self] at hr
+      cases hr
+      exact hself.1 hper
+    · simp only [sysPutF, aget_aset_ne _ _ hid] at hr
+      have := h.files_ok id' r hr hper
+      simp only [sysPutF, putF_other _ _ _ _ _ _ _ (chunk_ne hid), putF_pending_other _ _ _ _ _ _ _ (chunk_ne hid)]
+      exact this
+  · intro id' c' hfile hnp
+    by_cases hid : id = id'
+    · subst hid
+      simp only [sysPutF] at hfile hnp
+      refine ⟨mkRecP cfg now data plain ttl nonce enc (putF cfg φ y.recs y.fs y.pending id data).persisted,
+        by simp only [sysPutF, aget_aset_self], ?_⟩
+      by_cases hper : (putF cfg φ y.recs y.fs y.pending id data).persisted = true
+      · have := (hself.1 hper).1
+        rw [this] at hfile; cases hfile
+        exact ⟨by simp [mkRecP, hper], by simp [mkRecP, mkRec]⟩
+      · simp only [Bool.not_eq_true] at hper
+        have := hself.2 hper hnp
+        rw [this] at hfile; cases hfile
+    · simp only [sysPutF, putF_other _ _ _ _ _ _ _ (chunk_ne hid)] at hfile
+      simp only [sysPutF, putF_pending_other _ _ _ _ _ _ _ (chunk_ne hid)] at hnp
+      obtain ⟨r, hr, hx⟩ := h.files_only id' c' hfile hnp
+      exact ⟨r, by simp only [sysPutF, aget_aset_ne _ _ hid]; exact hr, hx⟩
   · intro id' r hr
     by_cases hid : id = id'
     · subst hid
-      simp only [sysPut, put, aget_aset_self] at hr
-      cases hr; exact hc.1
-    · simp only [sysPut, put, aget_aset_ne _ _ hid] at hr
-      exact h.persisted id' r hr
-  · intro id'
-    by_cases hid : id = id'
-    · subst hid
-      simp only [sysPut, put, aget_aset_self, putOps_self cfg hc.1]
-      rfl
-    · have hne : Name.chunk id ≠ Name.chunk id' := by intro hh; cases hh; exact hid rfl
-      simp only [sysPut, put, aget_aset_ne _ _ hid, putOps_other _ _ _ _ _ hne]
-      exact h.files id'
-  · intro id' r hr
-    by_cases hid : id = id'
-    · subst hid
-      simp only [sysPut, put, aget_aset_self] at hr
+      simp only [sysPutF, aget_aset_self] at hr
       cases hr
       have := effTtl_pos cfg ttl
       have := h.cleaned_le
-      simp only [mkRec, nsPerSec]
+      simp only [mkRecP, mkRec, nsPerSec]
       omega
-    · simp only [sysPut, put, aget_aset_ne _ _ hid] at hr
+    · simp only [sysPutF, aget_aset_ne _ _ hid] at hr
       exact h.live id' r hr
 
-theorem sinv_sweep {cfg : Cfg} (hc : PersistCfg cfg) {y : Sys} {c now : Int} (h : SInv y c now) :
-    SInv (sysSweep cfg y now).1 now now := by
+theorem not_mem_sweepNames {cfg : Cfg} {now : Int} {y : Sys} (hu : Uniq y.recs) {id : String} {r : Rec}
+    (hr : aget y.recs id = some r) (hnw : wiped cfg now r = false) (hnp : Name.chunk id ∉ y.pending) :
+    Name.chunk id ∉ sweepNames cfg now y.recs y.pending := by
+  intro hm
+  simp only [sweepNames, List.mem_append, List.mem_map, List.mem_filter] at hm
+  rcases hm with hm | ⟨e, ⟨he, hw⟩, heq⟩
+  · exact hnp hm
+  · cases heq
+    have := aget_of_mem hu (show (e.1, e.2) ∈ y.recs from he)
+    rw [hr] at this; cases this
+    rw [hnw] at hw; cases hw
+
+theorem sinv_sweep {cfg : Cfg} (hc : PersistCfg cfg) (φ : Faults) {y : Sys} {c now : Int} (h : SInv y c now) :
+    SInv (sysSweepF cfg φ y now).1 now now := by
+  have hsub := wipeAllF_failed_sub cfg φ (sweepNames cfg now y.recs y.pending) y.fs 0
   refine ⟨uniq_filter h.uniq _, ?_, ?_, ?_, Int.le_refl _⟩
-  · intro id r hr
-    simp only [sysSweep, sweep] at hr
-    rw [aget_filter h.uniq] at hr
-    cases hg : aget y.recs id with
-    | none => simp [hg] at hr
-    | some r' =>
-      simp only [hg] at hr
-      split at hr
-      · cases hr; exact h.persisted id _ hg
-      · cases hr
-  · intro id
-    simp only [sysSweep, sweep]
-    rw [aget_filter h.uniq]
-    cases hg : aget y.recs id with
-    | none =>
-      simp only [Option.map]
-      rw [sweepOps_keep]
-      · rw [h.files id, hg]; rfl
-      · intro id' r' hm _ heq
-        cases heq
-        rw [aget_of_mem h.uniq hm] at hg; cases hg
-    | some r =>
-      simp only []
-      by_cases hx : expiredSweep now r.expires = true
-      · simp only [hx, Bool.not_true]
-        have hw : wiped cfg now r = true := by simp [wiped, hx, h.persisted id r hg, hc.2]
-        rw [sweepOps_gone cfg now y.recs h.uniq y.fs id r (mem_of_aget hg) hw]
-        rfl
-      · simp only [Bool.not_eq_true] at hx
-        simp only [hx, Bool.not_false, if_true]
-        rw [sweepOps_keep]
-        · rw [h.files id, hg]
-        · intro id' r' hm hw heq
-          cases heq
-          rw [aget_of_mem h.uniq hm] at hg; cases hg
-          simp [wiped, hx] at hw
-  · intro id r hr
-    simp only [sysSweep, sweep] at hr
+  · intro id r hr hper
+    simp only [sysSweepF, sweep] at hr ⊢
     rw [aget_filter h.uniq] at hr
     cases hg : aget y.recs id with
     | none => simp [hg] at hr
@@ -104,61 +101,96 @@ theorem sinv_sweep {cfg : Cfg} (hc : PersistCfg cfg) {y : Sys} {c now : Int} (h 
       split at hr
       · rename_i hx
         cases hr
-        simp only [Bool.not_eq_true', ] at hx
+        have hx' : expiredSweep now r.expires = false := by simpa using hx
+        have hnw : wiped cfg now r = false := by simp [wiped, hx']
+        have hold := h.files_ok id r hg hper
+        have hnm := not_mem_sweepNames h.uniq hg hnw hold.2
+        exact ⟨by rw [wipeAllF_keep _ _ _ _ _ _ hnm]; exact hold.1, fun hm => hnm (hsub _ hm)⟩
+      · cases hr
+  · intro id c' hfile hnp
+    simp only [sysSweepF, sweep] at hfile hnp ⊢
+    by_cases hm : Name.chunk id ∈ sweepNames cfg now y.recs y.pending
+    · rw [wipeAllF_gone _ _ _ _ _ _ hm hnp] at hfile; cases hfile
+    · rw [wipeAllF_keep _ _ _ _ _ _ hm] at hfile
+      have hnpo : Name.chunk id ∉ y.pending := fun hh => hm (by simp [sweepNames, hh])
+      obtain ⟨r, hr, hper, hd⟩ := h.files_only id c' hfile hnpo
+      have hx : expiredSweep now r.expires = false := by
+        cases hxx : expiredSweep now r.expires with
+        | false => rfl
+        | true =>
+          exfalso; apply hm
+          simp only [sweepNames, List.mem_append, List.mem_map, List.mem_filter]
+          exact Or.inr ⟨(id, r), ⟨mem_of_aget hr, by simp [wiped, hxx, hper, hc.2]⟩, rfl⟩
+      refine ⟨r, ?_, hper, hd⟩
+      rw [aget_filter h.uniq, hr]
+      simp [hx]
+  · intro id r hr
+    simp only [sysSweepF, sweep] at hr
+    rw [aget_filter h.uniq] at hr
+    cases hg : aget y.recs id with
+    | none => simp [hg] at hr
+    | some r' =>
+      simp only [hg] at hr
+      split at hr
+      · rename_i hx
+        cases hr
+        simp only [Bool.not_eq_true'] at hx
         have : ¬ r.expires ≤ now := fun hh => by
           have := (expiredSweep_iff now r.expires).mpr hh
           rw [this] at hx; cases hx
         omega
       · cases hr
 
-theorem sinv_boot {cfg : Cfg} (hc : PersistCfg cfg) (fs : FS) (now : Int) : SInv (boot cfg fs) now now := by
+theorem sinv_boot {cfg : Cfg} (hc : PersistCfg cfg) (φ : Faults) (fs : FS) (now : Int) : SInv (bootF cfg φ fs) now now := by
   refine ⟨List.Pairwise.nil, ?_, ?_, ?_, Int.le_refl _⟩
-  · intro id r hr; simp [boot, aget] at hr
-  · intro id
-    rw [boot_no_chunk cfg hc.1 hc.2]
-    simp [boot, aget]
-  · intro id r hr; simp [boot, aget] at hr
+  · intro id r hr; simp [bootF, aget] at hr
+  · intro id c hfile hnp
+    exact absurd (bootF_chunk cfg hc.1 hc.2 φ fs id c hfile) hnp
+  · intro id r hr; simp [bootF, aget] at hr
 
 theorem sinv_mono {y : Sys} {c now now' : Int} (h : SInv y c now) (hle : now ≤ now') : SInv y c now' :=
-  ⟨h.uniq, h.persisted, h.files, h.live, Int.le_trans h.cleaned_le hle⟩
+  ⟨h.uniq, h.files_ok, h.files_only, h.live, Int.le_trans h.cleaned_le hle⟩
 
 /-- invariant of a history state: when an instance is running, its directory invariant holds -/
 def HInv (h : HWorld) : Prop := h.up = true → SInv h.w.sys h.cleaned h.w.now
 
+theorem hinv_stepOp {nc : NodeCfg} (hc : PersistCfg nc.store) (φ : Faults) {h : HWorld} (hi : HInv h) (o : Op) :
+    HInv (hstepOp nc φ h o) := by
+  by_cases hup : h.up = true
+  · have hs := hi hup
+    simp only [hstepOp, hup, if_true]
+    intro _
+    cases o with
+    | store id data ttl nonce enc => exact sinv_put hc φ hs id data data ttl nonce enc
+    | nstore id plain cipher nonce ttl => exact sinv_put hc φ hs id cipher plain _ nonce true
+    | lookup id => exact hs
+    | record id => exact hs
+    | fetch id => exact hs
+    | request id => exact hs
+    | list => exact hs
+    | sweep => exact sinv_sweep hc φ hs
+    | tick =>
+      simp only [stepF, sweeps, nodeTickF]
+      by_cases hcnd : h.w.now - h.w.lastCleanup ≥ nc.cleanupInterval * nsPerSec
+      · simp only [hcnd, if_true, decide_true]
+        exact sinv_sweep hc φ hs
+      · simp only [hcnd, if_false, decide_false]
+        exact hs
+    | advance d =>
+      simp only [stepF, sweeps]
+      exact sinv_mono hs (by omega)
+  · simp only [Bool.not_eq_true] at hup
+    intro hup'
+    exfalso
+    cases o <;> simp [hstepOp, hup] at hup'
+
 theorem hinv_step {nc : NodeCfg} (hc : PersistCfg nc.store) {h : HWorld} (hi : HInv h) (o : HOp) :
     HInv (hstep nc h o) := by
   cases o with
-  | op o =>
-    by_cases hup : h.up = true
-    · have hs := hi hup
-      simp only [hstep, hup, if_true]
-      intro _
-      cases o with
-      | store id data ttl nonce enc => exact sinv_put hc hs id data data ttl nonce enc
-      | nstore id plain cipher nonce ttl => exact sinv_put hc hs id cipher plain _ nonce true
-      | lookup id => exact hs
-      | record id => exact hs
-      | fetch id => exact hs
-      | request id => exact hs
-      | list => exact hs
-      | sweep => exact sinv_sweep hc hs
-      | tick =>
-        simp only [step, sweeps, nodeTick]
-        by_cases hcnd : h.w.now - h.w.lastCleanup ≥ nc.cleanupInterval * nsPerSec
-        · simp only [hcnd, if_true, decide_true]
-          exact sinv_sweep hc hs
-        · simp only [hcnd, if_false, decide_false]
-          exact hs
-      | advance d =>
-        simp only [step, sweeps]
-        exact sinv_mono hs (by omega)
-    · simp only [Bool.not_eq_true] at hup
-      intro hup'
-      exfalso
-      cases o <;> simp [hstep, hup] at hup'
-  | restart =>
-    intro _
-    exact sinv_boot hc _ _
+  | op o => exact hinv_stepOp hc [] hi o
+  | fail o φ => exact hinv_stepOp hc φ hi o
+  | restart => intro _; exact sinv_boot hc [] _ _
+  | restartF φ => intro _; exact sinv_boot hc φ _ _
   | crash o k =>
     intro hup'
     simp only [hstep] at hup'
@@ -173,83 +205,107 @@ theorem hinv_run {nc : NodeCfg} (hc : PersistCfg nc.store) (ops : List HOp) {h :
   | nil => exact hi
   | cons o r ih => exact ih (hinv_step hc hi o)
 
-/-- non-chunk entries of the directory are never modified, whatever happens -/
-theorem other_step (nc : NodeCfg) (h : HWorld) (o : HOp) (n : String) :
-    aget (hstep nc h o).w.sys.fs (.other n) = aget h.w.sys.fs (.other n) := by
-  have hput : ∀ (cfg : Cfg) (s : Recs) (fs : FS) (id : String) (data : Bytes),
-      aget (applyOps fs (putOps cfg s fs id data)) (.other n) = aget fs (.other n) :=
-    fun cfg s fs id data => putOps_other cfg s fs id data (by simp)
-  have hsw : ∀ (cfg : Cfg) (now : Int) (s : Recs) (fs : FS),
-      aget (applyOps fs (sweepOps cfg now s fs)) (.other n) = aget fs (.other n) :=
-    fun cfg now s fs => ops_other_untouched (sweepOps_touches_chunks cfg now s fs) fs n
+/-! ### entries that are not chunk files -/
+
+/-- the retry list only ever holds chunk files -/
+def PendChunk (h : HWorld) : Prop := ∀ q ∈ h.w.sys.pending, q.isChunk = true
+
+theorem putF_pending_chunk (cfg : Cfg) (φ : Faults) (s : Recs) (fs : FS) (pend : List Name) (id : String) (data : Bytes)
+    (hp : ∀ q ∈ pend, q.isChunk = true) : ∀ q ∈ (putF cfg φ s fs pend id data).pending, q.isChunk = true := by
+  intro q hq
+  by_cases hqq : Name.chunk id = q
+  · subst hqq; rfl
+  · exact hp q ((putF_pending_other cfg φ s fs pend id data hqq).mp hq)
+
+theorem other_stepOp (nc : NodeCfg) (φ : Faults) (h : HWorld) (hp : PendChunk h) (o : Op) (n : String) :
+    aget (hstepOp nc φ h o).w.sys.fs (.other n) = aget h.w.sys.fs (.other n) ∧ PendChunk (hstepOp nc φ h o) := by
+  have hsw : aget (sysSweepF nc.store φ h.w.sys h.w.now).1.fs (.other n) = aget h.w.sys.fs (.other n) ∧
+      ∀ q ∈ (sysSweepF nc.store φ h.w.sys h.w.now).1.pending, q.isChunk = true := by
+    have hc := sweepNames_chunk nc.store h.w.now h.w.sys.recs h.w.sys.pending hp
+    exact ⟨ops_other_untouched (wipeAllF_chunks _ _ _ _ _ hc) _ n,
+      fun q hq => hc q (wipeAllF_failed_sub _ _ _ _ _ q hq)⟩
+  have hput : ∀ (id : String) (data plain : Bytes) (ttl : Int) (nonce : Bytes) (enc : Bool),
+      aget (sysPutF nc.store φ h.w.sys h.w.now id data plain ttl nonce enc).fs (.other n) = aget h.w.sys.fs (.other n) ∧
+      ∀ q ∈ (sysPutF nc.store φ h.w.sys h.w.now id data plain ttl nonce enc).pending, q.isChunk = true :=
+    fun id data plain ttl nonce enc =>
+      ⟨putF_other _ _ _ _ _ _ _ (by simp), putF_pending_chunk _ _ _ _ _ _ _ hp⟩
+  simp only [hstepOp]
+  split
+  · cases o with
+    | store id data ttl nonce enc => exact hput id data data ttl nonce enc
+    | nstore id plain cipher nonce ttl => exact hput id cipher plain _ nonce true
+    | sweep => exact hsw
+    | tick =>
+      simp only [stepF, nodeTickF]
+      split
+      · exact hsw
+      · exact ⟨rfl, hp⟩
+    | lookup id => exact ⟨rfl, hp⟩
+    | record id => exact ⟨rfl, hp⟩
+    | fetch id => exact ⟨rfl, hp⟩
+    | request id => exact ⟨rfl, hp⟩
+    | list => exact ⟨rfl, hp⟩
+    | advance d => exact ⟨rfl, hp⟩
+  · cases o <;> exact ⟨rfl, hp⟩
+
+theorem other_step (nc : NodeCfg) (h : HWorld) (hp : PendChunk h) (o : HOp) (n : String) :
+    aget (hstep nc h o).w.sys.fs (.other n) = aget h.w.sys.fs (.other n) ∧ PendChunk (hstep nc h o) := by
+  have hnil : ∀ (fs : FS), PendChunk { w := { h.w with sys := { recs := [], fs := fs } }, up := false, cleaned := h.cleaned } := by
+    intro fs q hq; simp at hq
   cases o with
-  | op o =>
-    simp only [hstep]
-    split
-    · cases o with
-      | store id data ttl nonce enc => exact hput _ _ _ _ _
-      | nstore id plain cipher nonce ttl => exact hput _ _ _ _ _
-      | sweep => exact hsw _ _ _ _
-      | tick =>
-        simp only [step, nodeTick]
-        split
-        · exact hsw _ _ _ _
-        · rfl
-      | lookup id => rfl
-      | record id => rfl
-      | fetch id => rfl
-      | request id => rfl
-      | list => rfl
-      | advance d => rfl
-    · cases o <;> rfl
-  | restart => exact boot_other _ _ _
+  | op o => exact other_stepOp nc [] h hp o n
+  | fail o φ => exact other_stepOp nc φ h hp o n
+  | restart => exact ⟨bootF_other _ _ _ _, bootF_pending_chunk _ _ _⟩
+  | restartF φ => exact ⟨bootF_other _ _ _ _, bootF_pending_chunk _ _ _⟩
   | crash o k =>
     simp only [hstep]
     split
-    · simp only []
+    · refine ⟨?_, fun q hq => by simp at hq⟩
+      simp only []
       cases o with
       | store id data ttl nonce enc =>
-        exact applyOps_other (by simp) _ _ (take_touches (putOps_touches _ _ _ _ _) k)
+        exact applyOps_other (by simp) _ _ (take_touches (putF_touches _ _ _ _ _ _ _) k)
       | nstore id plain cipher nonce ttl =>
-        exact applyOps_other (by simp) _ _ (take_touches (putOps_touches _ _ _ _ _) k)
+        exact applyOps_other (by simp) _ _ (take_touches (putF_touches _ _ _ _ _ _ _) k)
       | sweep =>
-        exact ops_other_untouched (fun o ho => sweepOps_touches_chunks _ _ _ _ o (List.mem_of_mem_take ho)) _ n
+        exact ops_other_untouched (fun o ho => wipeAllF_chunks _ _ _ _ _
+          (sweepNames_chunk nc.store h.w.now h.w.sys.recs h.w.sys.pending hp) o (List.mem_of_mem_take ho)) _ n
       | tick =>
-        simp only [fsOpsOf]
+        simp only [fsOpsOf, fsOpsOfF]
         split
-        · exact ops_other_untouched (fun o ho => sweepOps_touches_chunks _ _ _ _ o (List.mem_of_mem_take ho)) _ n
+        · exact ops_other_untouched (fun o ho => wipeAllF_chunks _ _ _ _ _
+            (sweepNames_chunk nc.store h.w.now h.w.sys.recs h.w.sys.pending hp) o (List.mem_of_mem_take ho)) _ n
         · simp [applyOps]
-      | lookup id => simp [fsOpsOf, applyOps]
-      | record id => simp [fsOpsOf, applyOps]
-      | fetch id => simp [fsOpsOf, applyOps]
-      | request id => simp [fsOpsOf, applyOps]
-      | list => simp [fsOpsOf, applyOps]
-      | advance d => simp [fsOpsOf, applyOps]
-    · rfl
+      | lookup id => simp [fsOpsOf, fsOpsOfF, applyOps]
+      | record id => simp [fsOpsOf, fsOpsOfF, applyOps]
+      | fetch id => simp [fsOpsOf, fsOpsOfF, applyOps]
+      | request id => simp [fsOpsOf, fsOpsOfF, applyOps]
+      | list => simp [fsOpsOf, fsOpsOfF, applyOps]
+      | advance d => simp [fsOpsOf, fsOpsOfF, applyOps]
+    · exact ⟨rfl, hp⟩
   | crashBoot k =>
     simp only [hstep, ctorOps]
-    split
-    · exact ops_other_untouched (fun o ho => purgeOps_touches_chunks _ _ _ o (List.mem_of_mem_take ho)) _ n
-    · simp [applyOps]
+    exact ⟨ops_other_untouched (fun o ho => wipeAllF_chunks _ _ _ _ _ (purgeNames_chunk _ _) o (List.mem_of_mem_take ho)) _ n,
+      fun q hq => by simp at hq⟩
 
-theorem other_run (nc : NodeCfg) (ops : List HOp) (h : HWorld) (n : String) :
+theorem other_run (nc : NodeCfg) (ops : List HOp) (h : HWorld) (hp : PendChunk h) (n : String) :
     aget (hrun nc h ops).w.sys.fs (.other n) = aget h.w.sys.fs (.other n) := by
   induction ops generalizing h with
   | nil => rfl
   | cons o r ih =>
     simp only [hrun, List.foldl_cons] at ih ⊢
-    rw [ih, other_step]
-
+    rw [ih _ (other_step nc h hp o n).2, (other_step nc h hp o n).1]
 
 open EphVerif.StoreSpec (Op Params W last)
 
-/-- The abstract store along a history with restarts: the chunks of an instance die with it. -/
+/-- The abstract store along a history with restarts: the chunks of an instance die with it.
+    I/O errors are invisible at this level: a store whose file write failed is still a store. -/
 def hspecStep (p : Params) (up : Bool) (a : W) : HOp → W
-  | .op o => if up then StoreSpec.step p a o else
+  | .op o | .fail o _ => if up then StoreSpec.step p a o else
       match o with
       | .advance d => { a with now := a.now + d }
       | _ => a
-  | .restart => { a with s := [] }
+  | .restart | .restartF _ => { a with s := [] }
   | .crash _ _ => if up then { a with s := [] } else a
   | .crashBoot _ => { a with s := [] }
 
@@ -271,33 +327,44 @@ theorem rel_empty {w : World} {a : W} (hn : w.now = a.now) (hr : w.sys.recs = []
   ⟨hn, by rw [hr]; exact List.Pairwise.nil, by intro id r h; simp [hr, aget] at h,
    by intro id e h; simp [hs, last] at h⟩
 
+theorem hrel_stepOp {nc : NodeCfg} (hs : SaneCfg nc) (φ : Faults) {h : HWorld} {a : W} (hr : HRel h a) (o : Op) :
+    HRel (hstepOp nc φ h o) (if h.up then StoreSpec.step (paramsOf nc) a o else
+      match o with
+      | .advance d => { a with now := a.now + d }
+      | _ => a) := by
+  obtain ⟨hrel, hdown⟩ := hr
+  by_cases hup : h.up = true
+  · simp only [hstepOp, hup, if_true]
+    exact ⟨rel_stepF hs φ hrel o, fun hf => by simp at hf⟩
+  · simp only [Bool.not_eq_true] at hup
+    obtain ⟨h1, h2⟩ := hdown hup
+    cases o with
+    | advance d =>
+      simp only [hstepOp, hup]
+      exact ⟨rel_advance hrel d, fun _ => ⟨h1, h2⟩⟩
+    | store id data ttl nonce enc => simp only [hstepOp, hup]; exact ⟨hrel, fun _ => ⟨h1, h2⟩⟩
+    | nstore id plain cipher nonce ttl => simp only [hstepOp, hup]; exact ⟨hrel, fun _ => ⟨h1, h2⟩⟩
+    | lookup id => simp only [hstepOp, hup]; exact ⟨hrel, fun _ => ⟨h1, h2⟩⟩
+    | record id => simp only [hstepOp, hup]; exact ⟨hrel, fun _ => ⟨h1, h2⟩⟩
+    | fetch id => simp only [hstepOp, hup]; exact ⟨hrel, fun _ => ⟨h1, h2⟩⟩
+    | request id => simp only [hstepOp, hup]; exact ⟨hrel, fun _ => ⟨h1, h2⟩⟩
+    | list => simp only [hstepOp, hup]; exact ⟨hrel, fun _ => ⟨h1, h2⟩⟩
+    | sweep => simp only [hstepOp, hup]; exact ⟨hrel, fun _ => ⟨h1, h2⟩⟩
+    | tick => simp only [hstepOp, hup]; exact ⟨hrel, fun _ => ⟨h1, h2⟩⟩
+
 theorem hrel_step {nc : NodeCfg} (hs : SaneCfg nc) {h : HWorld} {a : W} (hr : HRel h a) (o : HOp) :
     HRel (hstep nc h o) (hspecStep (paramsOf nc) h.up a o) := by
-  obtain ⟨hrel, hdown⟩ := hr
   cases o with
-  | op o =>
-    by_cases hup : h.up = true
-    · simp only [hstep, hspecStep, hup, if_true]
-      exact ⟨rel_step hs hrel o, fun hf => by simp at hf⟩
-    · simp only [Bool.not_eq_true] at hup
-      obtain ⟨h1, h2⟩ := hdown hup
-      cases o with
-      | advance d =>
-        simp only [hstep, hspecStep, hup]
-        exact ⟨rel_advance hrel d, fun _ => ⟨h1, h2⟩⟩
-      | store id data ttl nonce enc => simp only [hstep, hspecStep, hup]; exact ⟨hrel, fun _ => ⟨h1, h2⟩⟩
-      | nstore id plain cipher nonce ttl => simp only [hstep, hspecStep, hup]; exact ⟨hrel, fun _ => ⟨h1, h2⟩⟩
-      | lookup id => simp only [hstep, hspecStep, hup]; exact ⟨hrel, fun _ => ⟨h1, h2⟩⟩
-      | record id => simp only [hstep, hspecStep, hup]; exact ⟨hrel, fun _ => ⟨h1, h2⟩⟩
-      | fetch id => simp only [hstep, hspecStep, hup]; exact ⟨hrel, fun _ => ⟨h1, h2⟩⟩
-      | request id => simp only [hstep, hspecStep, hup]; exact ⟨hrel, fun _ => ⟨h1, h2⟩⟩
-      | list => simp only [hstep, hspecStep, hup]; exact ⟨hrel, fun _ => ⟨h1, h2⟩⟩
-      | sweep => simp only [hstep, hspecStep, hup]; exact ⟨hrel, fun _ => ⟨h1, h2⟩⟩
-      | tick => simp only [hstep, hspecStep, hup]; exact ⟨hrel, fun _ => ⟨h1, h2⟩⟩
+  | op o => exact hrel_stepOp hs [] hr o
+  | fail o φ => exact hrel_stepOp hs φ hr o
   | restart =>
     simp only [hstep, hspecStep]
-    exact ⟨rel_empty hrel.now_eq rfl rfl, fun hf => by simp at hf⟩
+    exact ⟨rel_empty hr.1.now_eq rfl rfl, fun hf => by simp at hf⟩
+  | restartF φ =>
+    simp only [hstep, hspecStep]
+    exact ⟨rel_empty hr.1.now_eq rfl rfl, fun hf => by simp at hf⟩
   | crash o k =>
+    obtain ⟨hrel, hdown⟩ := hr
     by_cases hup : h.up = true
     · simp only [hstep, hspecStep, hup, if_true]
       exact ⟨rel_empty hrel.now_eq rfl rfl, fun _ => ⟨rfl, rfl⟩⟩
@@ -306,7 +373,7 @@ theorem hrel_step {nc : NodeCfg} (hs : SaneCfg nc) {h : HWorld} {a : W} (hr : HR
       exact ⟨hrel, fun _ => hdown hup⟩
   | crashBoot k =>
     simp only [hstep, hspecStep]
-    exact ⟨rel_empty hrel.now_eq rfl rfl, fun _ => ⟨rfl, rfl⟩⟩
+    exact ⟨rel_empty hr.1.now_eq rfl rfl, fun _ => ⟨rfl, rfl⟩⟩
 
 theorem hrel_run {nc : NodeCfg} (hs : SaneCfg nc) (ops : List HOp) {x : HWorld × W} (hr : HRel x.1 x.2) :
     HRel (hrun2 nc (paramsOf nc) x ops).1 (hrun2 nc (paramsOf nc) x ops).2 := by
@@ -319,6 +386,8 @@ def offState (t0 : Int) (fs : FS) : HWorld :=
   { w := { now := t0, sys := { recs := [], fs := fs }, lastCleanup := t0 }, up := false, cleaned := t0 }
 
 theorem hinv_off (t0 : Int) (fs : FS) : HInv (offState t0 fs) := by intro h; simp [offState] at h
+
+theorem pendChunk_off (t0 : Int) (fs : FS) : PendChunk (offState t0 fs) := by intro q hq; simp [offState] at hq
 
 theorem hrel_off (t0 : Int) (fs : FS) : HRel (offState t0 fs) (freshSpec t0) :=
   ⟨rel_empty rfl rfl rfl, fun _ => ⟨rfl, rfl⟩⟩
